@@ -481,3 +481,62 @@ def long_composites(tier, rng, rep):
                 rep.case(key=(N, n, cplx), nontrivial=N * (n + 1) >= 1024, sample=inp if (N, n, cplx) == (342, 2, False) else None)
                 if len(rep.failures) >= 3:
                     return
+
+
+@bounded(P, "enumerated_elements_act_as_their_words", functions=["geometry_tools/representation.py:Representation.automaton_accepted", "geometry_tools/representation.py:Representation._automaton_accepted",
+                                                                  "geometry_tools/representation.py:Representation.freely_reduced_elements", PR + "ProjectiveRepresentation.wrap_func"],
+         note="images of words delivered by the enumeration routes of a representation (automaton_accepted from a start state, into an end state, with a precomputed memo; freely_reduced_elements): "
+              "each returned transformation acts on a point as the matrix of ITS word acts on the coordinate vector (non-commuting generators, non-palindromic words)")
+def enumerated_elements_act_as_their_words(tier, rng, rep):
+    from geometry_tools.automata import fsa
+    N = 30 if tier == 'thorough' else 8
+    rep.rule = "n = 1, 2; projective representations with random non-commuting generators a, b; free automaton and random 3-state automata over {a, b, A}; options: default, start_state, end_state (every state), maxlen on / off; lengths to 3"
+    rep.bound = f"{N} representations x 2 automata x all states"
+    for t in range(N):
+        n = 1 + t % 2
+        mats = {g: rng.normal(size=(n + 1, n + 1)) + 1.5 * np.identity(n + 1) for g in "ab"}
+        mats.update({g.upper(): np.linalg.inv(M) for g, M in list(mats.items())})
+        R = pr.ProjectiveRepresentation()
+        for g in "ab":
+            R[g] = pr.Transformation(mats[g].copy(), column_vectors=True)
+        x = rng.normal(size=n + 1)
+        d = {v: {l: int(rng.integers(0, 3)) for l in ["a", "b", "A"] if rng.random() < 0.8} for v in range(3)}
+        autos = {"free": fsa.free_automaton(["a", "b"]), "random": fsa.FSA({k: dict(v) for k, v in d.items()}, [0])}
+        for aname, A in autos.items():
+            inp = {"n": n, "automaton": aname, "graph_dict": {repr(k): {l: repr(w) for l, w in nb.items()} for k, nb in A.graph_dict.items()}, "generators": {g: mats[g].tolist() for g in "ab"}}
+
+            def body():
+                states = list(A.graph_dict)[:4]
+                opts = [dict()] + [dict(start_state=s) for s in states] + [dict(end_state=s) for s in states]
+                for o in opts:
+                    for maxlen in (True, False):
+                        for L in (2, 3):
+                            try:
+                                elts, words = R.automaton_accepted(A, L, maxlen=maxlen, with_words=True, **o)
+                            except Exception as e:
+                                rep.fail("enumeration_runs", f"{o}: {type(e).__name__}: {e}", inp); return
+                            if len(words) == 0:
+                                continue
+                            Y = np.asarray((elts @ pr.Point(x.copy())).proj_data) if len(words) else np.zeros((0, n + 1))
+                            for i, w in enumerate(words):
+                                W = np.identity(n + 1)
+                                for ch in w:
+                                    W = W @ mats[ch]
+                                z = W @ x
+                                cr = np.outer(Y[i], z) - np.outer(z, Y[i])
+                                if not np.all(np.abs(cr) <= 1e-8 * (1 + np.abs(Y[i]).max() * np.abs(z).max())):
+                                    rep.fail("word_image_is_the_word_matrix", f"automaton_accepted({o}, maxlen={maxlen}, length {L}): the element returned for {w!r} does not act as the matrix of {w!r}", {**inp, "options": {k: repr(v) for k, v in o.items()}, "word": w}); return
+                fr, fw = R.freely_reduced_elements(3, with_words=True)
+                Yf = np.asarray((fr @ pr.Point(x.copy())).proj_data)
+                for i, w in enumerate(fw):
+                    W = np.identity(n + 1)
+                    for ch in w:
+                        W = W @ mats[ch]
+                    z = W @ x
+                    cr = np.outer(Yf[i], z) - np.outer(z, Yf[i])
+                    if not np.all(np.abs(cr) <= 1e-8 * (1 + np.abs(Yf[i]).max() * np.abs(z).max())):
+                        rep.fail("word_image_is_the_word_matrix", f"freely_reduced_elements: element for {w!r}", {**inp, "word": w}); return
+            rep.attempt("representation_runs", inp, body)
+            rep.case(key=(t, aname), nontrivial=True, sample=inp if (t, aname) == (0, "free") else None)
+            if len(rep.failures) >= 3:
+                return
